@@ -16,6 +16,7 @@ def load_specs():
         if os.path.basename(f) == 'common.py': continue
         spec = importlib.util.spec_from_file_location(os.path.basename(f)[:-3], f)
         spec.loader.exec_module(importlib.util.module_from_spec(spec))
+    for h in vf.POST: h()
 
 def known_findings():
     p = os.path.join(vf.VERIF, 'known_findings.json')
@@ -42,7 +43,7 @@ def decide(R, check, prop, tier, kf, replay_dir):
     d.results.append(r)
     if r.status in ('broken', 'timeout', 'error'):
         d.verdict = 'broken'; d.reason = '%s: %s' % (r.status, r.reason); return d
-    if r.canary is not True:
+    if r.canary is not True and not check.misuse:
         d.verdict = 'broken'; d.reason = 'vacuity guard: the end of the harness is unreachable (contradictory requires/lemmas?)'; return d
     if not r.obligations:
         d.verdict = 'broken'; d.reason = 'no obligations generated'; return d
@@ -54,7 +55,11 @@ def decide(R, check, prop, tier, kf, replay_dir):
         d.fired = len(fired)
         if not fired and not failed:
             d.verdict = 'broken'; d.reason = 'misuse check: no library assertion is reachable at all (precondition of the misuse contract unsatisfiable?)'; return d
-    if not failed: return d
+    if not failed:
+        unc = [c for c, hit in r.covers if not hit]
+        if unc:
+            d.verdict = 'broken'; d.reason = 'reachability guard: corner case(s) excluded by the preconditions/lemmas: ' + '; '.join(unc); return d
+        return d
     # group failures: one replay per distinct input set
     narrow = None
     for ob in failed:
